@@ -368,3 +368,243 @@ pub proof fn lemma_toml_reaches(env: Env, words: Seq<Seq<char>>, i: int, a: Seq<
     assert(toml_word(s_table(i), s_key(i), v) =~= s_long(i) + eqs() + v);
     lemma_spelling_reaches(env, i, true, v);
 }
+
+// ----- arrays of strings: `key = ["a", "b"]` stands for the value a,b -----
+// what the reader does to the text right of the '=': white space, quotes and brackets go
+pub open spec fn strip6(s: Seq<char>) -> Seq<char> { clean_value(unblank(s)) }
+pub proof fn lemma_strip6_cat(a: Seq<char>, b: Seq<char>)
+    ensures strip6(a + b) == strip6(a) + strip6(b),
+{
+    lemma_unblank_cat(a, b);
+    let a1 = unblank(a); let b1 = unblank(b);
+    lemma_without_cat(a1, b1, '\'');
+    let a2 = without_char(a1, '\''); let b2 = without_char(b1, '\'');
+    lemma_without_cat(a2, b2, '"');
+    let a3 = without_char(a2, '"'); let b3 = without_char(b2, '"');
+    lemma_without_cat(a3, b3, ']');
+    let a4 = without_char(a3, ']'); let b4 = without_char(b3, ']');
+    lemma_without_cat(a4, b4, '[');
+}
+// a text none of whose characters is removed
+pub open spec fn kept(s: Seq<char>) -> bool {
+    forall|i: int| 0 <= i < s.len() ==> { let c = #[trigger] s[i]; c != ' ' && c != '\t' && c != '\'' && c != '"' && c != ']' && c != '[' }
+}
+pub proof fn lemma_strip6_kept(s: Seq<char>)
+    requires kept(s),
+    ensures strip6(s) == s,
+{
+    assert(no_char(s, ' ') && no_char(s, '\t') && no_char(s, '\'') && no_char(s, '"') && no_char(s, ']') && no_char(s, '['));
+    lemma_unblank_id(s);
+    lemma_without_id(s, '\''); lemma_without_id(s, '"'); lemma_without_id(s, ']'); lemma_without_id(s, '[');
+}
+pub proof fn lemma_without_empty(x: char)
+    ensures without_char(Seq::<char>::empty(), x) == Seq::<char>::empty(),
+{
+}
+pub proof fn lemma_without_single(c: char, x: char)
+    ensures without_char(seq![c], x) == (if c == x { Seq::<char>::empty() } else { seq![c] }),
+{
+    let l = seq![c];
+    assert(l.drop_last() =~= Seq::<char>::empty());
+    lemma_without_empty(x);
+    assert(l.last() == c);
+    if c != x { assert(Seq::<char>::empty().push(c) =~= l); }
+}
+// a text all of whose characters are removed
+pub open spec fn dropped(s: Seq<char>) -> bool {
+    forall|i: int| 0 <= i < s.len() ==> { let c = #[trigger] s[i]; c == ' ' || c == '\t' || c == '\'' || c == '"' || c == ']' || c == '[' }
+}
+pub proof fn lemma_strip6_dropped(s: Seq<char>)
+    requires dropped(s),
+    ensures strip6(s) == Seq::<char>::empty(),
+    decreases s.len()
+{
+    if s.len() > 0 {
+        let t = s.drop_last(); let l = seq![s.last()];
+        assert(dropped(t)) by { assert forall|i: int| 0 <= i < t.len() implies ({ let c = #[trigger] t[i]; c == ' ' || c == '\t' || c == '\'' || c == '"' || c == ']' || c == '[' }) by { assert(t[i] == s[i]); } }
+        lemma_strip6_dropped(t);
+        assert(s =~= t + l);
+        lemma_strip6_cat(t, l);
+        // one removable character: it survives the removals before its own and falls to its own
+        let c = s.last();
+        let e = Seq::<char>::empty();
+        lemma_without_single(c, ' '); lemma_without_single(c, '\t'); lemma_without_single(c, '\''); lemma_without_single(c, '"'); lemma_without_single(c, ']'); lemma_without_single(c, '[');
+        lemma_without_empty(' '); lemma_without_empty('\t'); lemma_without_empty('\''); lemma_without_empty('"'); lemma_without_empty(']'); lemma_without_empty('[');
+        assert(strip6(l) =~= e);
+    }
+}
+// the items of an array, quoted with q, separated by a comma with white space a before and b after it
+pub open spec fn list_items(xs: Seq<Seq<char>>, q: int, a: Seq<char>, b: Seq<char>) -> Seq<char>
+    decreases xs.len()
+{
+    if xs.len() == 0 { Seq::empty() }
+    else if xs.len() == 1 { quote(q) + xs[0] + quote(q) }
+    else { list_items(xs.drop_last(), q, a, b) + a + seq![','] + b + (quote(q) + xs.last() + quote(q)) }
+}
+pub open spec fn all_kept(xs: Seq<Seq<char>>) -> bool { forall|i: int| 0 <= i < xs.len() ==> kept(#[trigger] xs[i]) }
+pub proof fn lemma_strip6_item(q: int, x: Seq<char>)
+    requires kept(x), 0 <= q <= 2,
+    ensures strip6(quote(q) + x + quote(q)) == x,
+{
+    assert(dropped(quote(q)));
+    lemma_strip6_dropped(quote(q)); lemma_strip6_kept(x);
+    lemma_strip6_cat(quote(q), x); lemma_strip6_cat(quote(q) + x, quote(q));
+    assert(Seq::<char>::empty() + x + Seq::<char>::empty() =~= x);
+}
+pub proof fn lemma_strip6_list(xs: Seq<Seq<char>>, q: int, a: Seq<char>, b: Seq<char>)
+    requires all_kept(xs), 0 <= q <= 2, blank(a), blank(b),
+    ensures strip6(list_items(xs, q, a, b)) == join_spec(xs, seq![',']),
+    decreases xs.len()
+{
+    if xs.len() == 0 {
+        lemma_strip6_dropped(Seq::<char>::empty());
+    } else if xs.len() == 1 {
+        lemma_strip6_item(q, xs[0]);
+    } else {
+        let rest = xs.drop_last();
+        assert(all_kept(rest)) by { assert forall|i: int| 0 <= i < rest.len() implies kept(#[trigger] rest[i]) by { assert(rest[i] == xs[i]); } }
+        lemma_strip6_list(rest, q, a, b);
+        let p = list_items(rest, q, a, b);
+        let item = quote(q) + xs.last() + quote(q);
+        assert(dropped(a) && dropped(b));
+        lemma_strip6_dropped(a); lemma_strip6_dropped(b);
+        assert(kept(seq![','])); lemma_strip6_kept(seq![',']);
+        lemma_strip6_item(q, xs.last());
+        lemma_strip6_cat(p, a); lemma_strip6_cat(p + a, seq![',']); lemma_strip6_cat(p + a + seq![','], b); lemma_strip6_cat(p + a + seq![','] + b, item);
+        assert(strip6(list_items(xs, q, a, b)) =~= join_spec(rest, seq![',']) + seq![','] + xs.last());
+    }
+}
+// `key = <any value text>`: the word carries the value text with white space, quotes and brackets removed
+pub proof fn lemma_toml_key_anyvalue(st: (Seq<char>, Seq<Seq<char>>), a: Seq<char>, b: Seq<char>, k: Seq<char>, w: Seq<char>, comment: Option<Seq<char>>)
+    requires
+        plain(k), k.len() > 0, blank(a), blank(b), no_char(w, '#'),
+        forall|i: int| 0 <= i < w.len() && is_ws(#[trigger] w[i]) ==> w[i] == ' ' || w[i] == '\t',
+    ensures
+        file_step(st, if comment.is_some() { a + k + b + eqs() + w + seq!['#'] + comment.unwrap() } else { a + k + b + eqs() + w })
+            == (st.0, st.1.push(toml_word(st.0, k, strip6(w)))),
+{
+    let body = a + k + b + eqs() + w;
+    axiom_trim(body);
+    assert forall|i: int| 0 <= i < k.len() implies k[i] != '#' && k[i] != ' ' && k[i] != '\t' && k[i] != '=' && #[trigger] k[i] != '[' && !is_ws(k[i]) by { assert(plain_char(k[i])); }
+    assert(no_char(k, '#') && no_char(k, ' ') && no_char(k, '\t') && no_char(k, '='));
+    assert(no_char(a, '#') && no_char(b, '#') && no_char(eqs(), '#'));
+    lemma_no_char_cat(a, k, '#'); lemma_no_char_cat(a + k, b, '#'); lemma_no_char_cat(a + k + b, eqs(), '#'); lemma_no_char_cat(a + k + b + eqs(), w, '#');
+    assert(no_char(body, '#'));
+    // without white space
+    lemma_unblank_blank(a); lemma_unblank_blank(b); lemma_unblank_id(k);
+    assert(no_char(eqs(), ' ') && no_char(eqs(), '\t')); lemma_unblank_id(eqs());
+    lemma_unblank_cat(a, k); lemma_unblank_cat(a + k, b); lemma_unblank_cat(a + k + b, eqs()); lemma_unblank_cat(a + k + b + eqs(), w);
+    assert(unblank(body) =~= k + eqs() + unblank(w));
+    if comment.is_some() {
+        lemma_split_once_first(body, '#', comment.unwrap());
+        assert forall|i: int| 0 <= i < body.len() && is_ws(#[trigger] body[i]) implies body[i] == ' ' || body[i] == '\t' by {
+            let s1 = a; let s2 = s1 + k; let s3 = s2 + b; let s4 = s3 + eqs();
+            assert(body == s4 + w);
+            if i < s1.len() { assert(body[i] == a[i]); } else if i < s2.len() { assert(body[i] == k[i - s1.len()]); } else if i < s3.len() { assert(body[i] == b[i - s2.len()]); }
+            else if i < s4.len() { assert(body[i] == '='); } else { assert(body[i] == w[i - s4.len()]); }
+        }
+        lemma_unblank_trim(body);
+    } else {
+        lemma_split_once_none(body, '#');
+    }
+    let line = if comment.is_some() { body + seq!['#'] + comment.unwrap() } else { body };
+    let ww = squeeze(line);
+    assert(ww == k + eqs() + unblank(w));
+    assert(ww[0] == k[0]);
+    assert(!has_prefix(ww, seq!['['])) by { if has_prefix(ww, seq!['[']) { assert(ww.subrange(0, 1)[0] == '['); } }
+    lemma_split_once_first(k, '=', unblank(w));
+}
+// the documented array form for the list settings: key = [ "a" , "b" ] (any quotes, any white space) gives the value a,b
+pub proof fn lemma_toml_list(st: (Seq<char>, Seq<Seq<char>>), a: Seq<char>, b: Seq<char>, c: Seq<char>, d: Seq<char>, e: Seq<char>, f: Seq<char>, k: Seq<char>, q: int, xs: Seq<Seq<char>>, comment: Option<Seq<char>>)
+    requires
+        plain(k), k.len() > 0, blank(a), blank(b), blank(c), blank(d), blank(e), blank(f), 0 <= q <= 2, all_kept(xs),
+        forall|i: int, j: int| 0 <= i < xs.len() && 0 <= j < xs[i].len() ==> '!' <= #[trigger] xs[i][j] <= '~' && xs[i][j] != '#',
+    ensures ({
+        let w = c + seq!['['] + d + list_items(xs, q, e, f) + d + seq![']'] + c;
+        file_step(st, if comment.is_some() { a + k + b + eqs() + w + seq!['#'] + comment.unwrap() } else { a + k + b + eqs() + w })
+            == (st.0, st.1.push(toml_word(st.0, k, join_spec(xs, seq![',']))))
+    }),
+{
+    let items = list_items(xs, q, e, f);
+    let w = c + seq!['['] + d + items + d + seq![']'] + c;
+    lemma_list_chars(xs, q, e, f);
+    axiom_trim(w);
+    // characters of w: blanks, brackets, or characters of the items text
+    assert forall|i: int| 0 <= i < w.len() implies #[trigger] w[i] != '#' && (is_ws(w[i]) ==> w[i] == ' ' || w[i] == '\t') by {
+        let s1 = c; let s2 = s1 + seq!['[']; let s3 = s2 + d; let s4 = s3 + items; let s5 = s4 + d; let s6 = s5 + seq![']'];
+        assert(w == s6 + c);
+        if i < s1.len() { assert(w[i] == c[i]); } else if i < s2.len() { assert(w[i] == '['); } else if i < s3.len() { assert(w[i] == d[i - s2.len()]); }
+        else if i < s4.len() { assert(w[i] == items[i - s3.len()]); } else if i < s5.len() { assert(w[i] == d[i - s4.len()]); }
+        else if i < s6.len() { assert(w[i] == ']'); } else { assert(w[i] == c[i - s6.len()]); }
+    }
+    assert(no_char(w, '#'));
+    lemma_toml_key_anyvalue(st, a, b, k, w, comment);
+    // strip6(w) == join
+    assert(dropped(c) && dropped(d) && dropped(seq!['[']) && dropped(seq![']']));
+    lemma_strip6_dropped(c); lemma_strip6_dropped(d); lemma_strip6_dropped(seq!['[']); lemma_strip6_dropped(seq![']']);
+    lemma_strip6_list(xs, q, e, f);
+    lemma_strip6_cat(c, seq!['[']); lemma_strip6_cat(c + seq!['['], d); lemma_strip6_cat(c + seq!['['] + d, items);
+    lemma_strip6_cat(c + seq!['['] + d + items, d); lemma_strip6_cat(c + seq!['['] + d + items + d, seq![']']); lemma_strip6_cat(c + seq!['['] + d + items + d + seq![']'], c);
+    assert(strip6(w) =~= join_spec(xs, seq![',']));
+}
+// a character of the items text is a blank, a quote, a comma or a character of an item
+pub proof fn lemma_list_chars(xs: Seq<Seq<char>>, q: int, a: Seq<char>, b: Seq<char>)
+    requires
+        blank(a), blank(b), 0 <= q <= 2,
+        forall|i: int, j: int| 0 <= i < xs.len() && 0 <= j < xs[i].len() ==> '!' <= #[trigger] xs[i][j] <= '~' && xs[i][j] != '#',
+    ensures forall|n: int| 0 <= n < list_items(xs, q, a, b).len() ==> { let x = #[trigger] list_items(xs, q, a, b)[n]; x == ' ' || x == '\t' || ('!' <= x <= '~' && x != '#') },
+    decreases xs.len()
+{
+    let t = list_items(xs, q, a, b);
+    if xs.len() == 0 {
+    } else {
+        let item = quote(q) + xs.last() + quote(q);
+        assert forall|n: int| 0 <= n < item.len() implies ({ let x = #[trigger] item[n]; '!' <= x <= '~' && x != '#' }) by {
+            let s1 = quote(q); let s2 = s1 + xs.last();
+            if n < s1.len() { assert(item[n] == quote(q)[n]); } else if n < s2.len() { assert(item[n] == xs.last()[n - s1.len()]); assert(xs[xs.len() - 1][n - s1.len()] == xs.last()[n - s1.len()]); } else { assert(item[n] == quote(q)[n - s2.len()]); }
+        }
+        if xs.len() == 1 {
+            assert(xs[0] == xs.last());
+            assert(t == item);
+        } else {
+            let rest = xs.drop_last();
+            assert forall|i: int, j: int| 0 <= i < rest.len() && 0 <= j < rest[i].len() implies '!' <= #[trigger] rest[i][j] <= '~' && rest[i][j] != '#' by { assert(rest[i] == xs[i]); assert(xs[i][j] == rest[i][j]); }
+            lemma_list_chars(rest, q, a, b);
+            let p = list_items(rest, q, a, b);
+            assert forall|n: int| 0 <= n < t.len() implies ({ let x = #[trigger] t[n]; x == ' ' || x == '\t' || ('!' <= x <= '~' && x != '#') }) by {
+                let s1 = p; let s2 = s1 + a; let s3 = s2 + seq![',']; let s4 = s3 + b;
+                assert(t == s4 + item);
+                if n < s1.len() { assert(t[n] == p[n]); } else if n < s2.len() { assert(t[n] == a[n - s1.len()]); } else if n < s3.len() { assert(t[n] == ','); }
+                else if n < s4.len() { assert(t[n] == b[n - s3.len()]); } else { assert(t[n] == item[n - s4.len()]); }
+            }
+        }
+    }
+}
+// ... and for the documented key of setting i in its documented table that word is `--long=a,b`, which sets variable i to a,b
+pub proof fn lemma_toml_list_reaches(env: Env, words: Seq<Seq<char>>, i: int, a: Seq<char>, b: Seq<char>, c: Seq<char>, d: Seq<char>, e: Seq<char>, f: Seq<char>, q: int, xs: Seq<Seq<char>>, comment: Option<Seq<char>>)
+    requires
+        in_tbl(i), blank(a), blank(b), blank(c), blank(d), blank(e), blank(f), 0 <= q <= 2, all_kept(xs),
+        forall|i: int, j: int| 0 <= i < xs.len() && 0 <= j < xs[i].len() ==> '!' <= #[trigger] xs[i][j] <= '~' && xs[i][j] != '#',
+    ensures ({
+        let w = c + seq!['['] + d + list_items(xs, q, e, f) + d + seq![']'] + c;
+        let v = join_spec(xs, seq![',']);
+        &&& file_step((s_table(i), words), if comment.is_some() { a + s_key(i) + b + eqs() + w + seq!['#'] + comment.unwrap() } else { a + s_key(i) + b + eqs() + w })
+            == (s_table(i), words.push(s_long(i) + eqs() + v))
+        &&& apply_arg(env, s_long(i) + eqs() + v) == env.insert(s_var(i), v)
+    }),
+{
+    let v = join_spec(xs, seq![',']);
+    lemma_tbl_keys_plain();
+    lemma_tbl_toml();
+    lemma_tbl_rows_toml();
+    lemma_toml_list((s_table(i), words), a, b, c, d, e, f, s_key(i), q, xs, comment);
+    reveal_strlit(""); reveal_strlit("cors");
+    assert(s_table(i).len() == 0 || s_table(i) == "cors"@);
+    if s_table(i).len() == 0 {
+        assert(seq!['-', '-'] + subst_char(s_key(i), '_', '-') == s_long(i));
+    } else {
+        assert(seq!['-', '-'] + s_table(i) + seq!['-'] + subst_char(s_key(i), '_', '-') == s_long(i));
+    }
+    assert(toml_word(s_table(i), s_key(i), v) =~= s_long(i) + eqs() + v);
+    lemma_spelling_reaches(env, i, true, v);
+}
